@@ -724,6 +724,7 @@ func runC14(c *Ctx) {
 	ruleXtextDecodesEveryPlus(c)
 	rulePathBytesPassThrough(c)
 	ruleZeroOptions(c)
+	ruleSetOptionsRendered(c)
 
 	R.Rule("R-field-key", "E8+E4 pairing", "the client renders each option field under the key the server stores it from; NOTIFY separator, RRVS layout and the unitext/xtext choice agree", 10)
 	pairs := []struct{ fn, token, source string }{
@@ -945,4 +946,61 @@ func ruleZeroOptions(c *Ctx) {
 		}
 		R.Ob(x.fn+"/option sites found", c.P.Pos(f.Pos()), n >= 5, fmt.Sprintf("%d sites", n))
 	}
+}
+
+// ruleSetOptionsRendered (C14): the converse of R-ext-gate/R-zero-options. An option that is set, valid and whose
+// extension the server offers is written to the command on every path that reaches the send, whatever the other
+// options are (every subset of options survives, not only each option alone).
+func ruleSetOptionsRendered(c *Ctx) {
+	R := c.R
+	R.Rule("R-set-options-rendered", "E2 must-pass-through under hypothesis", "for each option: set + offered => its parameter is written before the command is sent, on every path (independent of the other options)", 10)
+	type row struct {
+		fn, key string
+		H       []string
+	}
+	n := 0
+	for _, x := range []row{
+		{"(*Client).Mail", " BODY=8BITMIME", []string{`Client.ext["8BITMIME"]#1 == true`}},
+		{"(*Client).Mail", " SIZE=", []string{`param2 != nil`, `MailOptions.Size != 0`, `Client.ext["SIZE"]#1 == true`}},
+		{"(*Client).Mail", " REQUIRETLS", []string{`param2 != nil`, `MailOptions.RequireTLS == true`, `Client.ext["REQUIRETLS"]#1 == true`}},
+		{"(*Client).Mail", " SMTPUTF8", []string{`param2 != nil`, `MailOptions.UTF8 == true`, `Client.ext["SMTPUTF8"]#1 == true`}},
+		{"(*Client).Mail", " RET=", []string{`param2 != nil`, `MailOptions.Return == "FULL"`, `Client.ext["DSN"]#1 == true`}},
+		{"(*Client).Mail", " RET=", []string{`param2 != nil`, `MailOptions.Return == "HDRS"`, `Client.ext["DSN"]#1 == true`}},
+		{"(*Client).Mail", " ENVID=", []string{`param2 != nil`, `MailOptions.EnvelopeID != ""`, `isPrintableASCII(MailOptions.EnvelopeID) == true`, `Client.ext["DSN"]#1 == true`}},
+		{"(*Client).Mail", " AUTH=", []string{`param2 != nil`, `MailOptions.Auth != nil`, `Client.ext["AUTH"]#1 == true`}},
+		{"(*Client).Rcpt", " NOTIFY=", []string{`param2 != nil`, `RcptOptions.Notify != nil`, `builtin:len(RcptOptions.Notify) != 0`, `checkNotifySet(RcptOptions.Notify) == nil`, `Client.ext["DSN"]#1 == true`}},
+		{"(*Client).Rcpt", " ORCPT=", []string{`param2 != nil`, `RcptOptions.OriginalRecipient != ""`, `RcptOptions.OriginalRecipientType == "RFC822"`, `isPrintableASCII(RcptOptions.OriginalRecipient) == true`, `Client.ext["DSN"]#1 == true`}},
+		{"(*Client).Rcpt", " ORCPT=", []string{`param2 != nil`, `RcptOptions.OriginalRecipient != ""`, `RcptOptions.OriginalRecipientType == "UTF-8"`, `Client.ext["DSN"]#1 == true`}},
+		{"(*Client).Rcpt", " RRVS=", []string{`param2 != nil`, `(time.Time).IsZero(RcptOptions.RequireRecipientValidSince) == false`, `Client.ext["RRVS"]#1 == true`}},
+	} {
+		f := c.A.Func(x.fn)
+		if f == nil {
+			continue
+		}
+		writes := map[ssa.Instruction]bool{}
+		for _, w := range builderWrites(f) {
+			if strings.HasPrefix(w.konst, x.key) {
+				writes[w.in] = true
+			}
+			for _, d := range w.dyn {
+				if strings.Contains(describe(d), strings.TrimSpace(x.key)) {
+					writes[w.in] = true
+				}
+			}
+		}
+		v := RunPend(f, PendRule{
+			StartPending: true,
+			Disch:        func(in ssa.Instruction) bool { return writes[in] },
+			Forbid:       func(in ssa.Instruction) bool { return isStaticCall(in, "(*Client).cmd") },
+			SkipEdge:     c.F.SkipUnder(x.H...),
+			PhiOK:        c.F.PhiFeasible(x.H...),
+		})
+		n++
+		d := ""
+		if len(v) > 0 {
+			d = fmt.Sprintf("with {%s} a path reaches the send at %s without having written%s: the option is silently dropped when it is combined with others", strings.Join(x.H, " && "), c.P.InstrPos(v[0].At), x.key)
+		}
+		R.Ob(x.fn+"/"+strings.TrimSpace(x.key)+" written when "+strings.Join(x.H, "&&"), c.P.Pos(f.Pos()), len(v) == 0 && len(writes) > 0, d)
+	}
+	R.Ob("option rows/checked", "-", n >= 10, fmt.Sprintf("%d rows", n))
 }
